@@ -245,10 +245,15 @@ func remoteOp(d services.ServiceDirectoryProxy, in dirIn) dirOut {
 				info.Endpoints = []string{""}
 			}
 		}
+		// the identifier field of a submitted info is the directory's to assign: half of the registrations
+		// carry one that was issued earlier (a client resubmitting the info it once looked up), some a
+		// value never issued; the directory must assign a fresh one whatever it says
+		info.ServiceId = issuedIDs.wish(in.Tag)
 		id, err := d.RegisterService(info)
 		if err != nil {
 			return dirOut{Err: true, Msg: short(err)}
 		}
+		issuedIDs.add(id)
 		return dirOut{ID: id}
 	case "ready":
 		if err := d.ServiceReady(in.ID); err != nil {
@@ -292,6 +297,40 @@ func remoteOp(d services.ServiceDirectoryProxy, in dirIn) dirOut {
 		return dirOut{List: ids}
 	}
 	panic("remoteOp: " + in.Op)
+}
+
+// issuedIDs remembers the identifiers the directories of this process have handed out (any directory:
+// a foreign identifier is as good a wish as an own one).
+var issuedIDs idList
+
+type idList struct {
+	mu  sync.Mutex
+	ids []uint32
+}
+
+func (l *idList) add(id uint32) {
+	l.mu.Lock()
+	if len(l.ids) < 4096 {
+		l.ids = append(l.ids, id)
+	} else {
+		l.ids[int(id)%len(l.ids)] = id
+	}
+	l.mu.Unlock()
+}
+
+func (l *idList) wish(tag string) uint32 {
+	h := wk.Hash64("wish", tag)
+	l.mu.Lock()
+	defer l.mu.Unlock()
+	switch h % 4 {
+	case 0, 1:
+		if len(l.ids) > 0 {
+			return l.ids[int(h>>8)%len(l.ids)]
+		}
+	case 2:
+		return uint32(h>>8)%64 + 1
+	}
+	return 0
 }
 
 // eventLog collects serviceAdded / serviceRemoved events by service id.
